@@ -23,6 +23,8 @@ pub struct RustDocument {
     pub(crate) soap_ports: Vec<Rc<SoapPort>>,
     pub(crate) soap_bindings: Vec<Rc<SoapBinding>>,
     pub(crate) soap_services: Vec<SoapService>,
+    /// names currently being resolved through the XML tree; guards against reference cycles
+    pub(crate) resolving: Vec<String>,
 }
 
 impl RustDocument {
@@ -57,6 +59,7 @@ impl RustDocument {
             soap_ports: Vec::new(),
             soap_bindings: Vec::new(),
             soap_services: Vec::new(),
+            resolving: Vec::new(),
         }
     }
 
@@ -148,8 +151,15 @@ impl RustDocument {
             return Some(rust_node.clone());
         }
 
-        let alt_node = try_to_find_node_by_xml_name_in_xml_doc(start_node, xml_name, namespace, self).ok()?;
-        Some(alt_node.into())
+        // a definition that (directly or indirectly) refers to itself would be looked up forever
+        if self.resolving.iter().any(|n| n == xml_name) {
+            return None;
+        }
+
+        self.resolving.push(xml_name.to_string());
+        let alt_node = try_to_find_node_by_xml_name_in_xml_doc(start_node, xml_name, namespace, self);
+        self.resolving.pop();
+        Some(alt_node.ok()?.into())
     }
 
     pub fn find_message_by_xml_name(&self, xml_name: &str, _namespace: Option<&Namespace>) -> Option<&Rc<SoapMessage>> {
